@@ -8,13 +8,22 @@
    for every token stream, provided the rules / classes satisfy a decidable
    safety predicate; and the rules / classes of the real pipeline, regenerated
    from fmt/src/lib.rs on every run (Gen/FmtRules.v), satisfy it.
+   The five stages that are not rule-based (comments, hex re-flow, alignment,
+   indentation, trailing spaces) are modelled as coded in Fmt/Stages.v (tokens
+   carry their bytes, so widths and columns are exact) and each preserves the
+   significant content of every stream; the ORDER of all stages and the
+   options that select them are regenerated from `format_impl`
+   (Gen/FmtRules.v, [pipeline]) and the end-to-end theorem composes the
+   per-stage theorems over that list.  The `modified` flag is byte inequality
+   (shape re-read from the source).
    Not proved (evaluated on the implementation by the harness): idempotence,
-   the `modified` flag, termination, and the five stages that are not
-   rule-based (comments, hex re-flow, alignment, indentation, trailing
-   spaces). *)
+   termination, that no stage panics, that Align never ends its stream early
+   (it can: [align_can_end_early]); the tokenizer/CST front end and `write_to`
+   are outside the model. *)
 From Coq Require Import List NArith ZArith Bool Permutation.
 From YV Require Import Fmt.Tokens Gen.FmtCats Fmt.Processor Fmt.ProcessorProofs
-  Fmt.Bubble Fmt.BubbleProofs Gen.FmtRules Fmt.FmtRulesProofs.
+  Fmt.Bubble Fmt.BubbleProofs Fmt.Stages Fmt.StagesProofs Fmt.Pipeline Gen.FmtRules
+  Fmt.FmtRulesProofs Fmt.PipelineProofs.
 Import ListNotations.
 
 (* For every rule list whose drop rules only fire on whitespace-class tokens,
@@ -74,9 +83,73 @@ Theorem fmt_bubble_preserves_significant : forall aw ts out,
 Proof. exact FmtRulesProofs.fmt_bubble_preserves_significant. Qed.
 Print Assumptions fmt_bubble_preserves_significant.
 
+(* ---- the five hand-written stages, for every token stream ---- *)
+Theorem hex_patterns_preserves_significant : forall ts, sig (hex_patterns ts) = sig ts.
+Proof. exact StagesProofs.hex_patterns_preserves_significant. Qed.
+Print Assumptions hex_patterns_preserves_significant.
+
+Theorem add_indentation_preserves_significant : forall sp ts, sig (add_indentation sp ts) = sig ts.
+Proof. exact StagesProofs.add_indentation_preserves_significant. Qed.
+Print Assumptions add_indentation_preserves_significant.
+
+Theorem trailing_spaces_preserves_significant : forall ts, sig (trailing_spaces ts) = sig ts.
+Proof. exact StagesProofs.trailing_spaces_preserves_significant. Qed.
+Print Assumptions trailing_spaces_preserves_significant.
+
+(* Align: exact when the iterator reaches the end of its input, a prefix otherwise *)
+Theorem align_preserves_significant : forall ts out, align ts = Some (out, true) -> sig out = sig ts.
+Proof. exact StagesProofs.align_preserves_significant. Qed.
+Print Assumptions align_preserves_significant.
+
+Theorem align_output_prefix : forall ts out fl, align ts = Some (out, fl) -> exists rest, sig ts = sig out ++ rest.
+Proof. exact StagesProofs.align_output_prefix. Qed.
+Print Assumptions align_output_prefix.
+
+(* CommentProcessor: comment tokens are regrouped and retyped, their text
+   changes only in the leading whitespace of lines; input without typed
+   comments (what `Tokens` produces) *)
+Theorem comments_preserves_significant : forall tab ts out,
+  forallb (fun t => negb (typed_comment t)) ts = true ->
+  comments tab ts = Some out -> sigc out = sigc ts.
+Proof. exact StagesProofs.comments_preserves_significant. Qed.
+Print Assumptions comments_preserves_significant.
+
+Theorem sig_eq_sigc : forall a b, sig a = sig b -> sigc a = sigc b.
+Proof. exact StagesProofs.sig_eq_sigc. Qed.
+Print Assumptions sig_eq_sigc.
+
+(* ---- end to end ---- *)
+(* T: the generated pipeline has one comments stage, outside the conditionals *)
+Theorem fmt_pipeline_ok : ok_pipeline false Gen.FmtRules.pipeline = true.
+Proof. exact PipelineProofs.fmt_pipeline_ok. Qed.
+Print Assumptions fmt_pipeline_ok.
+
+(* for every option combination, tab size and indentation, every concrete
+   rule lists refining the extracted ones, every fuel and every raw token
+   stream: a completed run of the whole pipeline preserves the significant
+   content (text tokens exactly, comments line by line modulo leading
+   whitespace) *)
+Theorem format_preserves_significant : forall (o : fmt_opts) ts out,
+  raw ts = true ->
+  bruns Gen.FmtRules.stages Gen.FmtRules.bubbles o (select (o_flag o) Gen.FmtRules.pipeline) ts out ->
+  sigc out = sigc ts.
+Proof. exact PipelineProofs.format_preserves_significant. Qed.
+Print Assumptions format_preserves_significant.
+
+(* the `modified` flag *)
+Theorem modified_flag_truthful : forall inp out, modified_flag inp out = true <-> out <> inp.
+Proof. exact StagesProofs.modified_flag_truthful. Qed.
+Print Assumptions modified_flag_truthful.
+
 (* non-vacuity: safe rule lists exist and run; an unsafe rule is detected and
-   does lose a token; without its side condition Bubble does reorder *)
+   does lose a token; without its side condition Bubble does reorder; Align can
+   end early; the comments stage needs raw input; the pipeline has stages *)
 Check ProcessorProofs.safe_rules_example.
 Check ProcessorProofs.unsafe_rule_detected.
 Check BubbleProofs.bubble_can_reorder.
 Check FmtRulesProofs.fmt_rules_nonvacuous.
+Check StagesProofs.align_can_end_early.
+Check StagesProofs.comments_needs_raw_input.
+Check StagesProofs.comments_reindent_example.
+Check PipelineProofs.fmt_pipeline_lengths.
+Check PipelineProofs.fmt_pipeline_defined.
